@@ -217,6 +217,14 @@ def part_classes(rep, arg):
                 members = [absavp.minimal(m, 1).build() for i, m in enumerate(mand) if i != skip]
                 extra = absavp.Abs.generic(9999, 0, None, b"\x01", "bytes").build()
                 judge(rep, e, klass, members + [extra], None, "out")
+                # ... and with an impostor in the missing member's place: the same code under a foreign Vendor-ID
+                me = absavp.BY_CLASS[mand[skip]]
+                if (99999, me["code"]) not in absavp.BY_WIRE:
+                    imp = absavp.Abs.generic(me["code"], 0x80, 99999, b"\x00\x00\x00\x01", "bytes")
+                    judge(rep, e, klass, members + [imp.build()], None, "out")
+                    judge(rep, e, klass, refcodec.enc_avps([absavp.minimal(m, 1).abstract() for i, m in enumerate(mand) if i != skip]
+                                                           + [imp.abstract()]), None, "out")
+                    n += 2
                 judge(rep, e, klass, refcodec.enc_avps([absavp.minimal(m, 1).abstract() for i, m in enumerate(mand) if i != skip]
                                                        + [(9999, 0, None, b"\x01")]), None, "out")
                 n += 2
